@@ -16,4 +16,6 @@ print()
 n = len(rows)
 y = sum(1 for r in rows if r[4] == 'yes')
 a = sum(1 for r in rows if r[4] == 'after-strengthening')
-print(f'{n} confirmed seeded changes: {y} caught by the checks as they were, {a} only after the harness was strengthened, {n - y - a} not caught.')
+z = sum(1 for r in rows if r[4] == 'neutralised')
+print(f'{n} confirmed seeded changes: {y} caught by the checks as they were, {a} only after the harness was strengthened, '
+      f'{z} no longer a violation after the repair of the genuine defect it exposed, {n - y - a - z} not caught.')
